@@ -198,6 +198,9 @@ func SetOrder(scenario string) {
 // order (scenario name + DescSuffix); both are merged into total. The returned stats are the ascending run's,
 // with DepthDone the smaller of the two.
 func ExploreOrders(run *evid.Run, spec Spec, tier string, smp *evid.Samples, total *Stats, desc bool) Stats {
+	if desc && tier == "thorough" {
+		spec.Deadline = spec.Deadline * 6 / 10 // two explorations share the property's thorough budget
+	}
 	SetOrder(spec.Scenario)
 	st := Explore(run, spec, tier, smp)
 	Merge(run, spec.Scenario, st, total)
